@@ -125,6 +125,22 @@ pub fn eval_v<A: HC>(v: &V) -> R<Seq<A>> {
         V::Own(s) => eval_s::<A, _>(s, &mut |x| Ok(x.to_owned()))?,
         V::Into(s) => eval_s::<A, _>(s, &mut |x| Ok(Seq::<A>::from(x)))?,
         V::Trim(bytes) => Seq::<A>::trim_u8(bytes)?,
+        V::FromBits(off, v) => {
+            // the (unstable) `From<&BitSlice> for Seq`: the only way to an owned sequence whose bit vector has a non-zero head
+            use bitvec::prelude::*;
+            let src = eval_v::<A>(v)?;
+            let mut bits: BitVec<usize, Lsb0> = BitVec::new();
+            for i in 0..*off {
+                bits.push(i % 3 == 0);
+            }
+            for i in 0..src.len() {
+                let code = usize::try_from(&src[i]).unwrap_or(0);
+                for b in 0..A::BITS as usize {
+                    bits.push((code >> b) & 1 == 1);
+                }
+            }
+            Seq::<A>::from(&bits[*off..])
+        }
         V::CloneOf(v) => {
             let s = eval_v::<A>(v)?;
             let c = s.clone();
@@ -567,6 +583,48 @@ pub fn query<A: HC>(q: &str, t: &mut Toks) -> R<String> {
                     } else {
                         "eq:false".to_string()
                     })
+                })
+            })?
+        }
+        "serdert" => {
+            // round trip only (no field view): also for sequences with a non-zero head
+            let v = eval_v::<A>(&parse_v(t)?)?;
+            let bin = bincode::serialize(&v).map_err(|e| Fail::BadOp(e.to_string()))?;
+            let v2: Seq<A> = bincode::deserialize(&bin).map_err(|e| Fail::BadOp(e.to_string()))?;
+            let js = serde_json::to_string(&v).map_err(|e| Fail::BadOp(e.to_string()))?;
+            let v3: Seq<A> = serde_json::from_str(&js).map_err(|e| Fail::BadOp(e.to_string()))?;
+            let same = |x: &Seq<A>| -> bool {
+                *x == v && x.len() == v.len() && content(x) == content(&v) && hash_events(x) == hash_events(&v) && display_hex(x) == display_hex(&v)
+            };
+            format!("{} {} {}", show(&v), same(&v2), same(&v3))
+        }
+        "adapt" => {
+            // the std iterator adaptors over the crate's iterators (nth / skip / step_by / last / count / take)
+            let kind = t.next()?.to_string();
+            let w = t.num()?;
+            let ad = t.next()?.to_string();
+            let arg = t.num()?;
+            let s = parse_s(t)?;
+            fn run<I: Iterator>(it: I, ad: &str, arg: usize) -> Result<Vec<I::Item>, usize> {
+                Ok(match ad {
+                    "nth" => { let mut it = it; it.nth(arg).into_iter().collect() }
+                    "skip" => it.skip(arg).collect(),
+                    "stepby" => it.step_by(arg.max(1)).collect(),
+                    "last" => it.last().into_iter().collect(),
+                    "take" => it.take(arg).collect(),
+                    "nthnext" => { let mut it = it; let _ = it.nth(arg); it.collect() }
+                    "count" => return Err(it.count()),
+                    _ => vec![],
+                })
+            }
+            eval_s::<A, _>(&s, &mut |x| {
+                Ok(match kind.as_str() {
+                    "windows" => match run(x.windows(w), &ad, arg) { Ok(v) => slices(v.into_iter()), Err(n) => n.to_string() },
+                    "chunks" => match run(x.chunks(w), &ad, arg) { Ok(v) => slices(v.into_iter()), Err(n) => n.to_string() },
+                    "iter" => match run(x.iter(), &ad, arg) { Ok(v) => codes(v.into_iter()), Err(n) => n.to_string() },
+                    "reviter" => match run(x.rev_iter(), &ad, arg) { Ok(v) => codes(v.into_iter()), Err(n) => n.to_string() },
+                    "kmers" => return A::kmers_adapt(w, &ad, arg, x),
+                    _ => return Err(Fail::BadOp("adapt kind".into())),
                 })
             })?
         }
